@@ -83,12 +83,26 @@ def constructByset (interval start : Int) (byxxx : List Int) (base : Int) : Py.R
   let cset := dedup [] (byxxx.filter (fun num => g == 1 || Py.fmod (num - start) g == 0))
   if cset.isEmpty then .error .ValueError else .ok cset
 
-/-- the triple loop building `self._timeset` (each `datetime.time(...)` may raise) -/
-def buildTimeset (hs ms ss : List Int) : Py.R (List HMS) := do
-  let l ← hs.foldlM (fun acc h => ms.foldlM (fun acc m => ss.foldlM (fun acc s => do
-      let t ← mkTime h m s
-      pure (acc ++ [t])) acc) acc) []
-  pure (sortBy ltHMS l)
+/-- `datetime.time(...)` over a list of wall times, in order (the first failure escapes) -/
+def checkTimes : List HMS → Py.R (List HMS)
+  | [] => .ok []
+  | t :: ts =>
+    match mkTime t.1 t.2.1 t.2.2 with
+    | .error e => .error e
+    | .ok t' =>
+      match checkTimes ts with
+      | .error e => .error e
+      | .ok l => .ok (t' :: l)
+
+/-- `for hour in hs: for minute in ms: for second in ss` -/
+def productHMS (hs ms ss : List Int) : List HMS :=
+  hs.flatMap fun h => ms.flatMap fun m => ss.map fun s => (h, m, s)
+
+/-- the triple loop building `self._timeset` (each `datetime.time(...)` may raise), then `.sort()` -/
+def buildTimeset (hs ms ss : List Int) : Py.R (List HMS) :=
+  match checkTimes (productHMS hs ms ss) with
+  | .ok l => .ok (sortBy ltHMS l)
+  | .error e => .error e
 
 def validBysetpos (l : List Int) : Bool := l.all (fun p => !(p == 0 || !(-366 ≤ p && p ≤ 366)))
 
@@ -508,15 +522,21 @@ def selectPos (yearordinal : Int) (days : List Int) (timeset : List HMS) (pos : 
 
 def ltInst (a b : Inst) : Bool := a.secs < b.secs
 
+/-- lines 859-874: the loop over `bysetpos` accumulating `poslist` without duplicates -/
+def poslistLoop (yearordinal : Int) (days : List Int) (timeset : List HMS) : List Int → List Inst → Py.R (List Inst)
+  | [], acc => .ok acc
+  | pos :: ps, acc =>
+    match selectPos yearordinal days timeset pos with
+    | .error e => .error e
+    | .ok (some res) => poslistLoop yearordinal days timeset ps (if acc.contains res then acc else acc ++ [res])
+    | .ok none => poslistLoop yearordinal days timeset ps acc
+
 /-- lines 857-875: `poslist` (de-duplicated, sorted) -/
 def buildPoslist (yearordinal : Int) (days : List Int) (timeset : List HMS) (bysetpos : List Int) :
-    Py.R (List Inst) := do
-  let l ← bysetpos.foldlM (fun acc pos => do
-      let x ← selectPos yearordinal days timeset pos
-      match x with
-      | some res => pure (if acc.contains res then acc else acc ++ [res])
-      | none => pure acc) ([] : List Inst)
-  pure (sortBy ltInst l)
+    Py.R (List Inst) :=
+  match poslistLoop yearordinal days timeset bysetpos [] with
+  | .ok l => .ok (sortBy ltInst l)
+  | .error e => .error e
 
 /-- lines 889-905 without the emission tests: days × timeset in order, up to the first
     `fromordinal` failure -/
@@ -531,17 +551,11 @@ def expandDays (yearordinal : Int) (timeset : List HMS) : List Int → List Inst
 
 /-! ### timesets of the sub-daily frequencies -/
 
-def htimeset (r : Rule) (hour : Int) : Py.R (List HMS) := do
-  let l ← (r.byminute.getD []).foldlM (fun acc m => (r.bysecond.getD []).foldlM (fun acc s => do
-      let t ← mkTime hour m s
-      pure (acc ++ [t])) acc) []
-  pure (sortBy ltHMS l)
+def htimeset (r : Rule) (hour : Int) : Py.R (List HMS) :=
+  buildTimeset [hour] (r.byminute.getD []) (r.bysecond.getD [])
 
-def mtimeset (r : Rule) (hour minute : Int) : Py.R (List HMS) := do
-  let l ← (r.bysecond.getD []).foldlM (fun acc s => do
-      let t ← mkTime hour minute s
-      pure (acc ++ [t])) []
-  pure (sortBy ltHMS l)
+def mtimeset (r : Rule) (hour minute : Int) : Py.R (List HMS) :=
+  buildTimeset [hour] [minute] (r.bysecond.getD [])
 
 def stimeset (hour minute second : Int) : Py.R (List HMS) := do
   let t ← mkTime hour minute second
